@@ -10,6 +10,7 @@ import (
 	"fmt"
 	"os"
 	"sort"
+	"strconv"
 	"strings"
 	"time"
 
@@ -18,6 +19,10 @@ import (
 )
 
 func init() {
+	hard := 330
+	if v, err := strconv.Atoi(os.Getenv("C02_HARDSEC")); err == nil && v > 0 {
+		hard = v // only for self-validation of the hang monitor with a seeded non-termination
+	}
 	mon.RegisterCfg("C02", mon.Config{
 		Rule: "every one of the 16 decoders of the property (sfnt.Read, header.Read, cff.Read, cmap.Decode(+Get on every key), glyf.Decode(+SimpleGlyph.Decode on every simple glyph), gtab.Read for GSUB and GPOS, gdef.Read, coverage.Read/ReadSet, classdef.Read, name.Decode, head.Read, hmtx.Decode, maxp.Read, os2.Read, post.Read, kern.Read) is called on: valid seeds (tables cut from corpus fonts by an independent container walker, the repository's fuzz corpora, output of the library's encoders for generated values, spec-written GPOS5/cmap6/CFF), every truncation of small seeds, field-aware and blind mutants (bit flips, 16/32-bit field rewrites with boundary values, block duplication/deletion/splice, offset re-pointing), random bytes behind a valid version prefix, hand-built amplifiers at three sizes each, and whole font files with one table replaced by a mutant. Per call: recover (panic = violation), driver watchdog (hang), counting source (calls <= 4096+2*len, bytes <= 1024*that), runtime.MemStats.TotalAlloc delta (<= 64 MiB + 512*len); after success the accessors and re-encoders run under recover. evaluations = monitored decoder calls; distinct = distinct input byte strings (hash)",
 		Assumptions: []string{
@@ -27,7 +32,7 @@ func init() {
 			"Lookup is called with code points 0..0x10FFFF only",
 			"allocation is the delta of runtime.MemStats.TotalAlloc around the call in a worker that runs one case at a time",
 		},
-		HardSec: 330,
+		HardSec: hard,
 		SoftSec: 30,
 	}, runC02)
 }
